@@ -78,8 +78,18 @@ Lemma process_ohp_forward p e out d :
 Proof.
   unfold process_ohp. destruct (ohp_shape p) as [[[i h1] h2]|]; [|discriminate].
   destruct (negb (i_consdir i)) eqn:EC; [discriminate|].
+  destruct (negb (p_pay_len p =? p_pay_actual p)) eqn:EL; [discriminate|].
   apply negb_false_iff in EC. intros H. exists i, h1, h2.
   split; [reflexivity|]. split; [assumption|]. destruct (from0 ing); exact H.
+Qed.
+
+Lemma process_ohp_forward_len p e out d :
+  process_ohp macq c ing p = Forward e out d -> p_pay_len p = p_pay_actual p.
+Proof.
+  unfold process_ohp. destruct (ohp_shape p) as [[[i h1] h2]|]; [|discriminate].
+  destruct (negb (i_consdir i)); [discriminate|].
+  destruct (negb (p_pay_len p =? p_pay_actual p)) eqn:EL; [discriminate|].
+  intros _. now apply negb_false_eqb.
 Qed.
 
 Lemma process_ohp_slack_forward sl p e out d :
@@ -531,11 +541,12 @@ Qed.
 
 Lemma process_ohp_out_exact p i h1 h2 f :
   from0 ing = true -> ohp_shape p = Some (i, h1, h2) -> i_consdir i = true ->
+  p_pay_len p = p_pay_actual p ->
   p_src_ia p = c_ia c -> nbr_of c (h_eg h1) = p_dst_ia p -> p_dst_ia p <> 0 ->
   mac_valid mac i h1 -> get_if c (h_eg h1) = Some f ->
   process_ohp (total mac) c ing p = Forward (h_eg h1) (out_pkt p i h1 h2) None.
 Proof.
-  intros F Sh C Hs Hn Hz Hm Hg. unfold process_ohp. rewrite Sh, C, F. cbn [negb].
+  intros F Sh C Hl Hs Hn Hz Hm Hg. unfold process_ohp. rewrite Sh, C, F, Hl, N.eqb_refl. cbn [negb].
   eapply ohp_out_exact; eassumption.
 Qed.
 
